@@ -216,6 +216,7 @@ func (u *Unit) run() {
 	u.prepareReplay(old)
 	u.cover(st, "vacuity.requires", "precondition (requires ∧ repinv ∧ type ranges) is satisfiable")
 	st.trace = []string{"entry " + u.name}
+	st.entryLen = len(st.pc)
 	if u.ct.Flags["functional"] != "" {
 		// `functional`: the results are a function of the (scalar) arguments alone. Checked structurally along every
 		// path: no heap, map or package-variable access, and only deterministic callees.
@@ -735,6 +736,26 @@ func (e *Engine) solveAll(obls []*Obl) {
 				o.Result = res
 				return
 			}
+			if !o.Cover && o.hasFocus() {
+				ft := to
+				if ft > 5 {
+					ft = 5
+				}
+				saved := make([]string, len(o.Insts))
+				for i, in := range o.Insts {
+					saved[i] = in.Hyp
+					in.Hyp = tAnd(in.Focus...)
+				}
+				r := runQuery(e.outDir+"/smt", o.Name+".focus", o.query(), ft, o.Quant, e.seed)
+				for i, in := range o.Insts {
+					in.Hyp = saved[i]
+				}
+				if r.Status == "unsat" {
+					r.Solver += "+focus"
+					o.Result = r
+					return
+				}
+			}
 			o.Result = runQuery(e.outDir+"/smt", o.Name, o.query(), to, o.Quant, e.seed)
 			if o.Cover && o.Result.Status == "unsat" && len(o.PreInsts) > 0 {
 				// inconsistent after the assumption: is the site reachable at all?
@@ -759,6 +780,18 @@ func (o *Obl) ok() bool {
 		return o.Result.Status != "unsat" && o.Result.Status != "stale" // "dead" (unreachable site) is fine
 	}
 	return o.Result.Status == "unsat"
+}
+
+func (o *Obl) hasFocus() bool {
+	if len(o.Insts) == 0 {
+		return false
+	}
+	for _, in := range o.Insts {
+		if in.Focus == nil {
+			return false
+		}
+	}
+	return true
 }
 
 func (o *Obl) coverUndecided() bool {
